@@ -24,7 +24,10 @@ TABLE = {
  "a name declared global in the enclosing function is global in inner functions": ("C03", "g declares 'global x' and defines h reading x while an outer f has a local x: h raised NameError instead of reading the global"),
  "a bound method keeps its instance alive": ("C03", "class A: def m(self): return self.z ; A().m() raised AttributeError (self was None)"),
  "trigger expressions see the values other variables had when the event occurred": ("C04", "burst [A1, B1] with no loop callback in between, @state_trigger(\"pyscript.a == '1' and pyscript.b == '1'\"): the A1 event was evaluated with b's later value '1' (extra run); with b deleted meanwhile the evaluation raised NameError (missing run)"),
- "with watch=, a state trigger also captures the expression's other variables per event": ("C04", "burst [A1, B1], @state_trigger(\"pyscript.a == '1' and pyscript.b == '1'\", watch=['pyscript.a']): the A1 event was evaluated with b's later value (extra run)"),
+ "an update that changes no watched value does not count as a false evaluation": ("C05", "new subsystem, state_hold=10.5: T at 2 s then attribute-only update A at 9 s -> the pending hold was cancelled (no run at 12.5 s); with state_hold_false the update armed the false timer"),
+ "the run after state_hold carries the arguments of the event that started the hold": ("C05", "new subsystem, state_hold=10.5: T at 2 s, T2 at 4 s -> the run at 12.5 s carried var_name=pyscript.b of the later event"),
+ "state_check_now triggers at startup even when state_hold_false is set": ("C05", "new subsystem, state_check_now=True, state_hold_false=0, expression true at definition: no run at definition time; task.wait_until dropped state_hold_false after a true startup check (F at 2 s, T at 4 s with hold_false=6.25 returned)"),
+ "legacy task.wait_until starts the state_hold_false period when the expression is false at the call": ("C05", "legacy task.wait_until(state_hold_false=0), expression false at the call, T at 2 s: never returned"),
 }
 log = subprocess.run(["git", "-C", "/repo", "log", "--reverse", "--format=%h %s"], capture_output=True, text=True).stdout.strip().split("\n")
 fixed = []
